@@ -109,3 +109,12 @@ claim(
     TB, "parser/printer table agreement computed from both sides' MIR (node-construction shapes vs. dispatch arms), sibling-predicate agreement, taint-style no-rewrite rule",
     "DESIGN.md §2 C14",
 )
+claim(
+    "C15", "other",
+    "Determinism lint over the call graph of the compile entry points and the migration planner: every HashMap/HashSet iteration "
+    "(and every ordered map keyed by an interner id) is classified by its consumer; order-sensitive consumers must be audited; no "
+    "sort/max/min key or comparison of interner-id type (ids follow interning history); no clock/RNG/environment/address reads. "
+    "Byte equality of outputs is not decided.",
+    TB, "call-graph reachability + consumer classification of unordered iterations (def-use chains, loop-body effect analysis)",
+    "DESIGN.md §2 C15",
+)
